@@ -424,14 +424,21 @@ C03_CoveredIsPending == \A n \in Nodes : \A a \in Nodes \ {n} : \A p \in nodes[n
 C03_BufferedHaveRecord == \A n \in Nodes : \A a \in Nodes \ {n} : \A b \in nodes[n].rows[a].bufs :
     (\E r \in nodes[n].rows[a].seqs : r.v = b[1] /\ b[2] >= r.s /\ b[2] <= r.e)
 
-(* C05: what a server sends for any need a client can compute *)
-C05_Serve == \A s, c, a \in Nodes : (s # c /\ a # c) => \A need \in AllNeeds(c, s, a) :
+(* C05: what a server sends for any need a peer may send for versions up to the advertised head *)
+ProbeNeeds(s, a) == {n \in NeedUniverse : IF n.k = "full" THEN n.lo <= n.hi /\ n.hi <= Adv(nodes[s].book[a]).head
+                                                           ELSE n.v <= Adv(nodes[s].book[a]).head}
+C05_Serve == \A s, a \in Nodes : \A need \in ProbeNeeds(s, a) :
     LET out == ServeF(nodes[s], a, need) bk == nodes[s].book[a] IN
     /\ \A m \in out : m.k = "empty" => \A v \in m.lo..m.hi :
-            /\ v <= bk.max /\ v \notin bk.needed /\ ~HasPartial(bk.partials, v)      \* held, not needed, not partial
+            /\ v <= bk.max /\ v \notin bk.needed                                     \* held, not needed,
+            /\ (HasPartial(bk.partials, v) => PvCovered(PartialOf(bk.partials, v)))   \* not partially received
             /\ LiveSeqs(nodes[s], a, v) = {}
             /\ (a = s \/ v \in nodes[s].merged[a])
     /\ \A m \in out : m.k = "full" => (m.seqs \subseteq m.lo..m.hi /\ m.lo <= m.hi)
+    \* a version that is only buffered is answered with exactly the buffered ranges
+    /\ \A m \in out : (m.k = "full" /\ LiveSeqs(nodes[s], a, m.v) = {}) =>
+            /\ (m.lo..m.hi) \subseteq RowSeqs(nodes[s].rows[a], m.v)
+            /\ m.seqs = {b[2] : b \in {x \in nodes[s].rows[a].bufs : x[1] = m.v /\ x[2] \in m.lo..m.hi}}
     /\ \A m \in out : m.k = "full" => /\ m.v <= bk.max /\ m.v \notin bk.needed
                                       /\ \A q \in m.seqs : Exists(<<a, m.v, q>>)
     \* a fully held live version is answered with changesets that tile 0..=last and carry exactly its live changes
